@@ -16,14 +16,17 @@ RULE = (
     "every CommentDoc gets src_line = c.line, src_column = c.column and the text of the same comment c, for every comment of the "
     "token; doc::anchored stores its parameters under the same names. R2 (Doc -> rendered anchor) = C28 R4: emit_anchored and "
     "render_comments record (state.current_line, state.col + 1) together with the item's own source coordinates, after the pending "
-    "indent is flushed and before the text is pushed, with nothing moving the cursor in between. R3 (rendered anchor -> map entry) In "
+    "indent is flushed and before the text is pushed, with nothing moving the cursor in between; and the cursor they read is kept "
+    "true by the whole renderer (= C28 R6/R8/R9): state.col never receives a byte length, is reset to 0 only right after opts.newline "
+    "was written, and every write to state.out is followed on every path by a write of state.col. R3 (rendered anchor -> map entry) In "
     "Emitter::emit every RenderedAnchor of the same render that produced the emitted string is passed to SourceMap::add with each "
     "field in the parameter of the same name, then the map is built. R4 SourceMap::add converts each of the four 1-based "
     "coordinates with exactly -1 and hands them to sourcemap::SourceMapBuilder::add in (dst_line, dst_col, src_line, src_col) order "
-    "with the name."
+    "with the name. R5 (the map on disk belongs to the output on disk) in CmdBuild::exec's emit loop every path from the write-mode write "
+    "of `dst` to the next loop iteration passes the write of `map`, except over the `sourcemap_target == None` edge (error returns leave the loop)."
 )
 
-CRATES = ["veryl_emitter", "veryl_pretty", "veryl_sourcemap"]
+CRATES = ["veryl_emitter", "veryl_pretty", "veryl_sourcemap", "veryl"]
 E = "veryl_emitter::emitter::Emitter::"
 ADAPT = re.compile(r"Iterator::(rev|skip|take|step_by|filter|map|enumerate|peekable|chain|zip)$")
 TRIM = re.compile(r"core::str::<impl str>::trim_end(_matches)?$")
@@ -130,7 +133,11 @@ def run(world, tier, info, only=None):
     # ---------------- R2 = C28 R4 --------------------------------------------------------------------------
     c28.anchor_obligations(ck, w, "emit_anchored", "arg", R2="R2", R4="R2")
     c28.anchor_obligations(ck, w, "render_comments", "loop", R2="R2", R4="R2")
+    # the recorded column is state.col: it must follow the text (resets only after a newline, every write accounted)
+    c28.cursor_obligations(ck, w, R8="R2", R9="R2")
+    c28.col_units(ck, w, R6="R2", floor=False)
 
+    map_written_with_output(ck, w)
     # ---------------- R3 Emitter::emit ---------------------------------------------------------------------
     s = w.fns[E + "emit"]
     f = Fn(w.mir(E + "emit"))
@@ -194,6 +201,72 @@ def run(world, tier, info, only=None):
     ck.analysed = {"functions": [E + "push_token", E + "process_comment", E + "emit", "veryl_pretty::doc::anchored", "veryl_pretty::render::emit_anchored",
                                  "veryl_pretty::render::render_comments", "veryl_sourcemap::sourcemap::SourceMap::add"]}
     return ck.finish(info)
+
+
+def map_written_with_output(ck, w):
+    """R5: in CmdBuild::exec's emit loop, once the output of a file was written in write mode and a source map is configured, the loop
+    cannot move on to the next file without writing this file's map: the map depends on the source text too, so no condition on the
+    output write's result (or on the map file's presence) may stand between the two."""
+    import c27
+    from mirlib import MustFacts, Sem
+    EX = c27.EXEC
+    if EX not in w.fns:
+        ck.missing("R5", EX)
+        return
+    x = w.fns[EX]
+    g = Fn(w.mir(EX))
+    mf = MustFacts(g)
+    sem = Sem(g, depth=14)
+    wr = g.calls(c27.WRITE)
+
+    def named(op):
+        rl = c27.root_local(g, op)
+        return g.name(rl) if rl is not None else None
+    w_dst = [(bi, t) for bi, t in wr if named(t["args"][0]) == "dst" and c27.mode_at(sem, mf.at_entry(bi)) in (False, None)]
+    w_map = [(bi, t) for bi, t in wr if named(t["args"][0]) == "map"]
+    ck.floor("R5", "write-mode output writes in the emit loop", len(w_dst), 1)
+    ck.floor("R5", "map writes in the emit loop", len(w_map), 1)
+    if not w_dst or not w_map:
+        return
+    # the only edge that may skip the map: sourcemap_target == None
+    banned = set()
+    n_cmp = 0
+    for bi, t in g.calls(r"PartialEq(<.*>)?>?::(ne|eq)$"):
+        if not any(flow.access_path(g, a)[1][-1:] == ("sourcemap_target",) for a in t["args"]):
+            continue
+        n_cmp += 1
+        sw = g.blocks[t["to"]]["t"]
+        if sw["t"] != "sw" or sw["on"][0] == "k" or sw["on"][1][0] != t["dst"][0] or len(sw["vals"]) != 1 or sw["vals"][0][0] != "0":
+            ck.ob("R5", "map-with-output/none-test", None, site(x, t["l"]), "the sourcemap_target comparison is not branched on directly; cannot tell the None edge")
+            return
+        is_ne = t["callee"].endswith("::ne")
+        banned.add((t["to"], sw["vals"][0][1] if is_ne else sw["else"]))
+    heads = [h for h, t, some, none, item in flow.loops_over(g) if any(bi in g.reach_from(some) for bi, _ in w_dst)]
+    if len(heads) != 1 or not n_cmp:
+        ck.ob("R5", "map-with-output/shape", None, site(x), "expected one emit loop and a sourcemap_target test (loops %s, tests %d)" % (heads, n_cmp))
+        return
+    head = heads[0]
+    gate = {bi for bi, _ in w_map}
+    for bi, t in w_dst:
+        seen = set()
+        work = [t["to"]]
+        hit = False
+        while work:
+            b = work.pop()
+            if b in seen or b in gate or g.blocks[b].get("cu"):
+                continue
+            seen.add(b)
+            if b == head:
+                hit = True
+                break
+            for sc in g.succ[b]:
+                if (b, sc) not in banned:
+                    work.append(sc)
+        ck.ob("R5", "map-with-output:%s" % (g.name(c27.root_local(g, t["args"][0])) or "dst"), not hit, site(x, t["l"]),
+              "with a source map configured, every path from this output write to the next file writes the map (or fails the build)" if not hit else
+              "with a source map configured the loop can reach the next file after this output write without writing the map: a source edit "
+              "that leaves the output unchanged (or whatever else the skipped condition tests) leaves a stale map whose entries point "
+              "into the old source text")
 
 
 def c36_arith(e):
